@@ -48,6 +48,10 @@ ORACLE = {
 ORACLE["ww"] = lambda v: f"{(doy(v) + 6 - v.weekday()) // 7:02d}"
 
 
+YEARS_FOR_DATES = (2018, 2021, 2023, 2024, 2019, 2020, 2022, 2025, 2028, 2032, 2000, 1900, 2100, 2200, 2300, 2400, 1600, 1700, 1800, 1896, 1904, 1999, 2001, 2096,
+                   2104, 100, 400, 1000, 1582, 4, 1, 9996, 9999)
+
+
 def field_values(directive):
     base = datetime(2024, 3, 15, 13, 45, 56, 123456)
     if directive in ("a", "HH", "H", "hh", "h", "k", "kk", "K", "KK"):
@@ -58,11 +62,16 @@ def field_values(directive):
         return [base.replace(second=s) for s in range(60)]
     if directive in ("EEEE", "EEE", "d", "dd", "DDD", "DD", "D", "W", "ww", "F", "MMMM", "MMM", "MM", "M"):
         out = []
-        for year in (2023, 2024, 2021, 2018):  # common/leap years starting on different weekdays
+        # the field is the calendar date: every day of common and leap years starting on each weekday, century years that are and are not
+        # leap years (the Gregorian rule), and the ends of the supported range
+        for year in YEARS_FOR_DATES:
             d = datetime(year, 1, 1, 10, 30)
             while d.year == year:
                 out.append(d)
-                d += timedelta(days=1)
+                try:
+                    d += timedelta(days=1)
+                except OverflowError:  # 9999-12-31 is the last date
+                    break
         return out
     if directive in ("yyyy", "yy", "y", "G"):
         return [base.replace(year=y) for y in (1000, 1066, 1900, 1999, 2000, 2001, 2009, 2010, 2024, 2099, 2100, 9999)]
